@@ -6,6 +6,7 @@ trace validation of recorded executions: producers' call begin/end, the QTLOGGER
 they carry, and what probe handlers inside the pipeline see.  Lifecycle paths that need their own process
 (application quit, logger destroyed at exit, no application object) run in child processes (drv_lifecycle)."""
 import json
+import re
 import os
 import random
 import subprocess
@@ -431,9 +432,22 @@ def mc_part(pid, tier):
         total_d += r.distinct
         total_g += r.generated
         depth = max(depth, r.depth)
-        for a, v in C.cov_table(r).items():
-            if a not in cov or v["generated"] > cov[a]["generated"]:
-                cov[a] = v
+        # QtlThreads' next-state relation is (producer / worker / stopper step) /\ UNCHANGED conf, which TLC reports as one
+        # action; how often each action fired is read off the expression-level coverage
+        spec_text = (C.SPEC / "QtlThreads.tla").read_text()
+        step_defs = spec_text[spec_text.index("ProducerStep(t) =="):spec_text.index("Next ==")]
+        actions = set(re.findall(r"\b([A-Z]\w+)\(", step_defs)) | set(re.findall(r"\b(W[A-Z]\w+)\b", step_defs))
+        for a, n in C.action_fired(r, "QtlThreads").items():
+            if a in actions:
+                cov[a] = max(cov.get(a, 0), n)
+    need = {"C02": ["CallBegin", "LockL", "LockH", "Branch", "UnlockH", "FlushBegin", "FlushEnd", "UnlockL", "CallEnd", "PipeEnter",
+                    "PipeRead", "PipeWrite", "PipeDeliver", "PipeExit"],
+            "C03": ["Post", "WTake", "WDec", "WBack", "PipeDeliver"],
+            "C04": ["RsEnter", "RsLock", "RsNoThread", "RsHasThread", "RsCheckBusy", "RsRelock", "RsQuit", "RsJoin", "RsClear", "MvLock",
+                    "MvSkip", "MvCreate", "AppCreate", "AppQuit", "AppDestroy", "AppSpin", "Free", "WFinish", "Post"]}[pid]
+    never = [a for a in need if cov.get(a, 0) == 0]
+    if never:
+        raise C.ToolFailure(f"vacuity: the exhaustive runs of {pid} never took {never} (coverage: {cov})")
     wit = {}
     for cfg, expect in MC[pid]["witness"]:
         r = C.run_tlc("MC_Threads", cfg, timeout=900, xmx="8g")
@@ -548,7 +562,7 @@ def run(pid, tier, seed):
                 "their scalars, probe events with every LogMessage accessor) validated by TLC against QtlThreads; non-trivial = "
                 + name,
         "exhaustive": False,
-        "tlc_exhaustive_configs": MC[pid][tier], "tlc_depth": depth, "tlc_action_coverage": cov, "tlc_witnesses": wit,
+        "tlc_exhaustive_configs": MC[pid][tier], "tlc_depth": depth, "tlc_action_coverage (evaluations of each action's last conjunct, over the exhaustive configurations)": cov, "tlc_witnesses": wit,
         "trace_events": sum(len(e) for (_, e, _) in executed), "verification_points_validated": tot("points"),
         "async_deliveries": tot("async_deliveries"), "sync_deliveries": tot("sync_deliveries"), "hand_offs": tot("posts"), "fatal_flushes_inside_the_lock": sum(i.get("fatal_flushes", 0) for (_, _, i) in executed),
         "stop_waits_with_backlog": tot("resets_with_backlog"), "scenario_kinds": kinds,
